@@ -296,7 +296,7 @@ def load_corpus(prop):
     if os.path.isdir(d):
         for fn in sorted(os.listdir(d)):
             if fn.endswith('.json'):
-                with open(os.path.join(d, fn)) as f:
+                with open(os.path.join(d, fn), encoding='utf-8') as f:
                     j = json.load(f)
                 out.append((fn, dec(j['case'] if 'case' in j else j)))
     return out
